@@ -4,6 +4,7 @@ constructed by `parseBTree` into exactly its pages and cells.
 -/
 import SqliteDissect.Spec.TreeWrite
 import SqliteDissect.Proofs.PageParse
+import SqliteDissect.Proofs.TreeWalk
 namespace SqliteDissect.Proofs.TreeParse
 open SqliteDissect SqliteDissect.Model
 open SqliteDissect.Proofs.Codec SqliteDissect.Proofs.Record SqliteDissect.Proofs.PageParse
@@ -361,6 +362,41 @@ theorem allCells_nodes (table : Bool) : ∀ T : TTree,
     intro c hc
     exact ihc c hc
 
+/-- the page numbers listed by `nodes` do not depend on the b-tree family -/
+theorem nodes_numbers (table : Bool) : ∀ T : TTree,
+    (T.nodes table).map (·.1) = (T.nodes true).map (·.1) := by
+  intro T
+  induction T using TTree.induct with
+  | leaf p cells =>
+    rw [TTree.nodes, TTree.nodes]
+    rfl
+  | interior p ch rm ihc ihr =>
+    rw [TTree.nodes, TTree.nodes]
+    have hch : ch.map (fun c => (c.1.nodes table).map (·.1)) = ch.map (fun c => (c.1.nodes true).map (·.1)) :=
+      List.map_congr_left fun c hc => ihc c hc
+    simp only [List.map_cons, List.map_append, List.map_flatten, List.map_map, ihr, Function.comp_def, hch]
+
+theorem pagesDistinct_iff (table : Bool) (T : TTree) :
+    T.PagesDistinct ↔ ((T.nodes table).map (·.1)).Nodup := by
+  unfold TTree.PagesDistinct
+  rw [nodes_numbers table T]
+
+/-- the page numbers of the pages reported for the nodes are the nodes' -/
+theorem reported_numbers (u : Nat) (nds : List (Nat × PageType × List CellSpec)) (t : List BPage)
+    (h : Elementwise (NodeReported u) nds t) : t.map (·.number) = nds.map (·.1) :=
+  (elementwise_map_eq _ (·.1) (·.number) (fun _ _ h => h.1.symm) _ _ h).symm
+
+/-- **Stage 2 for the walk that refuses a page reached twice.**  A laid-out tree whose page
+numbers are pairwise distinct is constructed by the repaired code into the same list. -/
+theorem tree_nodes_walk (v : VersionIf) (hu : 512 ≤ v.pageSize) (hu2 : v.pageSize ≤ 65536) (table : Bool)
+    (fuel : Nat) (T : TTree) (hT : TreeLaidOut v table T) (hf : T.frames ≤ fuel) (hpd : T.PagesDistinct) :
+    ∃ t, parseBTreeW v fuel T.page (T.kind table) [] = .ok t ∧
+      Elementwise (NodeReported v.pageSize) (T.nodes table) t := by
+  obtain ⟨t, ht, hn⟩ := tree_nodes v hu hu2 table fuel T hT hf
+  refine ⟨t, TreeWalk.parseBTreeW_of_pure v fuel _ _ [] t ht ?_ (fun _ _ hm => nomatch hm), hn⟩
+  rw [reported_numbers _ _ _ hn]
+  exact (pagesDistinct_iff table T).mp hpd
+
 /-! ### corollaries -/
 
 /-- what is reported for a cell determines the row: rowid and column values -/
@@ -450,9 +486,9 @@ theorem byte_served (v : VersionIf) (n : Nat) (bytes : List Nat) (hs : Spec.Serv
   simp only [hfl, List.getElem_cons_zero]
 
 /-- the root dispatcher constructs the page with the class the page's type byte names (on page 1
-the byte after the database header) -/
+the byte after the database header), the walk starting with an empty set -/
 theorem root_dispatch (v : VersionIf) (n : Nat) (L : PageLayout) (hps : PageServed v n L) (fuel : Nat) :
-    getBTreeRoot v fuel n = parseBTree v fuel n L.kind := by
+    getBTreeRoot v fuel n = parseBTreeW v fuel n L.kind [] := by
   obtain ⟨bytes, hs, hl, hoff, _⟩ := hps
   have hh := hl.header
   unfold Spec.pageHeaderBytes at hh
@@ -479,6 +515,41 @@ theorem root_dispatch (v : VersionIf) (n : Nat) (L : PageLayout) (hps : PageServ
     obtain ⟨fb, hfb, hfs, hfr⟩ := byte_served v n bytes hs 0 _ h0
     have h53 := typeByte_ne_53 L.kind
     unfold getBTreeRoot
+    simp only [Generated.PAGE_TYPE_LENGTH, hfb, hfs, hfr, bind, Except.bind, h53, and_false, if_false,
+      pure, Except.pure, ne_eq, not_true_eq_false]
+    generalize L.kind = k
+    cases k <;> simp [Spec.typeByte]
+
+
+/-- the same for the dispatcher of the code before the repair -/
+theorem root_dispatch_pure (v : VersionIf) (n : Nat) (L : PageLayout) (hps : PageServed v n L) (fuel : Nat) :
+    getBTreeRootPure v fuel n = parseBTree v fuel n L.kind := by
+  obtain ⟨bytes, hs, hl, hoff, _⟩ := hps
+  have hh := hl.header
+  unfold Spec.pageHeaderBytes at hh
+  rw [List.append_assoc, List.append_assoc, List.append_assoc, List.append_assoc] at hh
+  obtain ⟨h0, _⟩ := storedAt_append _ _ _ _ hh
+  by_cases hn : n = 1
+  · subst hn
+    rw [if_pos rfl] at hoff
+    rcases hl.dbHeader with h | ⟨_, hhead, htab⟩
+    · omega
+    rw [hoff] at h0
+    obtain ⟨fb, hfb, hfs, hfr⟩ := byte_served v 1 bytes hs 0 _ (head_stored _ _ hhead)
+    obtain ⟨fb2, hfb2, hfs2, hfr2⟩ := byte_served v 1 bytes hs 100 _ h0
+    unfold getBTreeRootPure
+    simp only [Generated.PAGE_TYPE_LENGTH, Generated.SQLITE_DATABASE_HEADER_LENGTH,
+      Generated.SQLITE_MASTER_SCHEMA_ROOT_PAGE, hfb, hfs, hfr, bind, Except.bind, and_self, if_true,
+      ne_eq, not_true_eq_false, if_false, hfb2, hfs2]
+    revert htab hfr2
+    generalize L.kind = k
+    intro htab hfr2
+    cases k <;> simp_all [Spec.typeByte, PageType.isTable, pure, Except.pure]
+  · rw [if_neg hn] at hoff
+    rw [hoff] at h0
+    obtain ⟨fb, hfb, hfs, hfr⟩ := byte_served v n bytes hs 0 _ h0
+    have h53 := typeByte_ne_53 L.kind
+    unfold getBTreeRootPure
     simp only [Generated.PAGE_TYPE_LENGTH, hfb, hfs, hfr, bind, Except.bind, h53, and_false, if_false,
       pure, Except.pure, ne_eq, not_true_eq_false]
     generalize L.kind = k
@@ -568,13 +639,13 @@ theorem valid_payload_lt (v : VersionIf) (c : CellSpec) (hv : c.Valid v) : c.pay
 `get_b_tree_root_page` and `aggregate_leaf_cells`, with its rowid and column values. -/
 theorem table_tree_rows (v : VersionIf) (hu : 512 ≤ v.pageSize) (hu2 : v.pageSize ≤ 65536)
     (T : TTree) (hT : TreeLaidOut v true T) (fuel : Nat) (hf : T.frames ≤ fuel)
-    (hnd : (T.leafCells.map (·.rowid)).Nodup) :
+    (hpd : T.PagesDistinct) (hnd : (T.leafCells.map (·.rowid)).Nodup) :
     ∃ t, getBTreeRoot v fuel T.page = .ok t ∧
       Elementwise (fun s c => CellSpec.ReportedAs v.pageSize s c) T.leafCells (leafCells t) ∧
       (leafCells t).map Spec.cellRow = T.leafCells.map CellSpec.row ∧
       (aggregateLeafCells t []).1 = T.leafCells.length ∧
       (aggregateLeafCells t []).2.1.map (fun e => Spec.cellRow e.2) = T.leafCells.map CellSpec.row := by
-  obtain ⟨t, ht, hn⟩ := tree_nodes v hu hu2 true fuel T hT hf
+  obtain ⟨t, ht, hn⟩ := tree_nodes_walk v hu hu2 true fuel T hT hf hpd
   obtain ⟨L, hk, _, hps⟩ := root_served v true T hT
   have hrep := leaf_cells_reported v.pageSize true T t hn
   have hrows := (elementwise_map_eq _ CellSpec.row Spec.cellRow
@@ -595,13 +666,13 @@ theorem table_tree_rows (v : VersionIf) (hu : 512 ≤ v.pageSize) (hu2 : v.pageS
 /-- **C14, tree level.**  Every entry of a laid-out index b-tree — the cells of all pages,
 interior pages included — is recovered with its column values. -/
 theorem index_tree_entries (v : VersionIf) (hu : 512 ≤ v.pageSize) (hu2 : v.pageSize ≤ 65536)
-    (T : TTree) (hT : TreeLaidOut v false T) (fuel : Nat) (hf : T.frames ≤ fuel) :
+    (T : TTree) (hT : TreeLaidOut v false T) (fuel : Nat) (hf : T.frames ≤ fuel) (hpd : T.PagesDistinct) :
     ∃ t, getBTreeRoot v fuel T.page = .ok t ∧
       Elementwise (fun s c => CellSpec.ReportedAs v.pageSize s c) T.allCells (t.flatMap (·.cells)) ∧
       (t.flatMap (·.cells)).map Spec.cellRow = T.allCells.map CellSpec.row ∧
       Elementwise (fun s c => CellSpec.ReportedAs v.pageSize s c) T.leafCells (leafCells t) ∧
       (aggregateLeafCells t []).1 = T.leafCells.length := by
-  obtain ⟨t, ht, hn⟩ := tree_nodes v hu hu2 false fuel T hT hf
+  obtain ⟨t, ht, hn⟩ := tree_nodes_walk v hu hu2 false fuel T hT hf hpd
   obtain ⟨L, hk, _, hps⟩ := root_served v false T hT
   have hall := all_cells_reported v.pageSize false T t hn
   have hrep := leaf_cells_reported v.pageSize false T t hn
